@@ -129,12 +129,13 @@ class GW(OW):
             self.emit({"f": "C_GenerateKey", "s": s.ref, "mech": mechs.simple(K.CKM_AES_KEY_GEN), "tmpl": t, "out": new, "probe": "genkey"}, tid, ok=ok)
             self.info[new] = {"kind": "aes", "secret": {}}
         elif ep == "genpair":
-            if r.random() < 0.6: return False
+            if r.random() < 0.3: return False
             n1 = self.new_obj(); n2 = self.new_obj()
             tok = r.random() < 0.5; pv = r.random() < 0.6
+            tokv = tok if r.random() < 0.5 else (not tok)      # the two halves of a pair may differ in CKA_TOKEN: each half is subject to the rules on its own
             pub = [A_bool(K.CKA_TOKEN, tok), A_bool(K.CKA_PRIVATE, False), A_bytes(K.CKA_LABEL, objs.label(n1)), A_bytes(K.CKA_EC_PARAMS, bytes.fromhex(objs.POOL["ec"][0]["params"])), A_bool(K.CKA_VERIFY, True)]
-            prv = [A_bool(K.CKA_TOKEN, tok), A_bool(K.CKA_PRIVATE, pv), A_bytes(K.CKA_LABEL, objs.label(n2)), A_bool(K.CKA_SIGN, True), A_bool(K.CKA_SENSITIVE, False), A_bool(K.CKA_EXTRACTABLE, True), A_bool(K.CKA_DERIVE, True)]
-            ok = self.can_create(pid, s, tok, pv)
+            prv = [A_bool(K.CKA_TOKEN, tokv), A_bool(K.CKA_PRIVATE, pv), A_bytes(K.CKA_LABEL, objs.label(n2)), A_bool(K.CKA_SIGN, True), A_bool(K.CKA_SENSITIVE, False), A_bool(K.CKA_EXTRACTABLE, True), A_bool(K.CKA_DERIVE, True)]
+            ok = self.can_create(pid, s, tok, False) and self.can_create(pid, s, tokv, pv)
             self.emit({"f": "C_GenerateKeyPair", "s": s.ref, "mech": mechs.simple(K.CKM_EC_KEY_PAIR_GEN), "pub": pub, "priv": prv, "out": [n1, n2], "probe": "genpair"}, tid, ok=ok)
             self.info[n1] = {"kind": "ec_pub", "secret": {}}; self.info[n2] = {"kind": "ec_priv", "secret": {}}
         return True
